@@ -157,7 +157,7 @@ def pick(rng, lst):
 
 
 def gen_cases(rng, tier):
-  n = 1 if tier == "quick" else 4
+  n = 2 if tier == "quick" else 6
   cases = []
 
   def qsel(slots, i, force_none=False, auto=False):
